@@ -36,8 +36,8 @@ pub fn structure(ctx: &Ctx, tcs: &[String], cfg: &Cfg, out: &str) {
         Err(_) => return,
     };
     let want_prefix = match (cfg.has(I), cfg.has(X)) {
-        (true, true) => "(?ix)\n",
-        (false, true) => "(?x)\n",
+        (true, true) => "(?ix)",
+        (false, true) => "(?x)",
         (true, false) => "(?i)",
         (false, false) => "",
     };
@@ -85,13 +85,14 @@ pub fn blocks(thorough: bool) -> Vec<Block> {
     let bases8 = [0, I, R, D, NS, NA, NE, NA | NE];
     let ws: Vec<&str> = A_WS.to_vec();
     if !thorough {
-        b.push(Block::new(Universe::new("U_ab3{a,b}", &["a", "b"], 3, 0, true), pres(&[0]), "7 non-empty subsets of {x,g,e}"));
-        b.push(Block::new(Universe::new("U_adv(A_ws)", &ws, 2, 2, true), pres(&[0, I, NS]), "7 subsets x {{}, i, S}"));
-        b.push(Block::new(Universe::new("U_adv(A_meta)", A_META, 2, 2, true), pres(&[0, R]), "7 subsets x {{}, r}"));
-        b.push(Block::new(Universe::new("U_adv(A_esc)", A_ESC, 2, 2, true), pres(&[0, R]), "7 subsets x {{}, r}"));
-        b.push(Block::new(Universe::new("U_adv(A_gc)", A_GC, 2, 2, true), pres(&[0]), "7 subsets"));
-        b.push(Block::new(Universe::new("U_abc2{a,b,c}", &["a", "b", "c"], 2, 0, true), pres(&bases8), "7 subsets x 8 bases {{},i,r,d,S,na,ne,na+ne}"));
-        b.push(Block::new(Universe::new("U_adv(A_ws)", &ws, 1, 3, false), pres(&bases8), "7 subsets x 8 bases"));
+        b.push(Block::new(Universe::new("U_ab3{a,b}", &["a", "b"], 3, 4, true), pres(&[0]), "7 non-empty subsets of {x,g,e}"));
+        b.push(Block::new(Universe::new("U_adv(A_ws)", &ws, 2, 2, true), vec![Cfg::new(X), Cfg::new(X | I), Cfg::new(X | G | E)], "x, x+i, x+g+e"));
+        b.push(Block::new(Universe::new("U_adv(A_ws)", &ws, 1, 2, true), pres(&[0, NS, R]), "7 subsets x {{}, S, r}"));
+        b.push(Block::new(Universe::new("U_adv(A_meta)", A_META, 2, 2, true), vec![Cfg::new(X), Cfg::new(G), Cfg::new(X | G | E | R)], "x, g, x+g+e+r"));
+        b.push(Block::new(Universe::new("U_adv(A_esc)", A_ESC, 2, 2, true), vec![Cfg::new(E), Cfg::new(X | E), Cfg::new(G | E | R)], "e, x+e, g+e+r"));
+        b.push(Block::new(Universe::new("U_adv(A_gc)", A_GC, 2, 2, true), vec![Cfg::new(E), Cfg::new(X | G | E), Cfg::new(G | R)], "e, x+g+e, g+r"));
+        b.push(Block::new(Universe::new("U_abc2{a,b,c}", &["a", "b", "c"], 2, 3, true), pres(&bases8), "7 subsets x 8 bases {{},i,r,d,S,na,ne,na+ne}"));
+        b.push(Block::new(Universe::new("U_adv(A_ws)", &ws, 1, 3, false), pres(&[0, I, NA | NE]), "7 subsets x {{}, i, na+ne}"));
     } else {
         let b2: Vec<u32> = lattice_le(0, ALL_BITS & !(X | G | E | U | C), 2).iter().map(|c| c.bits).collect();
         b.push(Block::new(Universe::new("U_ab3{a,b}", &["a", "b"], 3, 0, true), pres(&bases8), "7 subsets x 8 bases"));
